@@ -632,7 +632,8 @@ class SimulationAlgorithm(BaseSimulationAlgorithm):
             3: 0.001,  # 0.001 years ~ 0.365 days (~1 day) - User will never want precision above 1 day.
         }
 
-        rounding_precision = None
+        # finest supported precision, used when min_spacing_between_visits is below 0.001 (0 included)
+        rounding_precision = max(rounding_options)
         for precision, val in sorted(rounding_options.items()):
             if val <= min_spacing_between_visits:
                 rounding_precision = precision
